@@ -12,6 +12,16 @@ CLAIMS = {
  "C05": ("Theorems: matrix stencils = divergence of the explicit gradient/mean flux, cell by cell, all classes; TVD zero/unit-limiter identities "
          "(Props/C05.v); 7 correspondence suites; identity probes on the real code; zero-u_upwind edge is a known finding (refuted theorem)", "DESIGN.md 3, 4 (C05)"),
  "C06": ("Theorems: diffusion of a constant is 0, central/upwind/TVD of a constant c is c*div(u) (Props/C06.v); suites + probes incl. sources-only solve", "DESIGN.md 4 (C06)"),
+ "C03": ("Theorems: stored boundary values (with_boundaries) satisfy a/h*(difference)+b*(average)=c face by face incl. 1/r, 1/(r sin theta); the solver's "
+         "boundary rows encode the same relation; (a,b,c) scale invariance; periodic wrap and the exact residual of the solver's periodic rows "
+         "(Props/C03.v); suites bc_ghost, bc_rows, solve, explicit on all classes; Robin-residual probes after the four operations; periodic axis "
+         "with unequal end cells is a known finding", "DESIGN.md 4 (C03)"),
+ "C04": ("Theorems over every solution of the assembled system: term order irrelevant, linear in the unknown, superposition in sources/boundary "
+         "data/old values, terms never enter boundary rows (Props/C04.v); the solve suite evaluates the residual of the MODEL system inside Coq at "
+         "the real solver's answer for random term lists; probes: identity of the returned object, external solver receives the identical system, "
+         "solveMatrixPDE agreement", "DESIGN.md 4 (C04)"),
+ "C12": ("Theorems: backward-Euler row identity, steady <-> fixed point for every dt and alpha, increment identity behind dt->0/inf, explicit step "
+         "definition (Props/C12.v); limit statements themselves are partial (identities only); suites solve/explicit; dt sweeps over 12 decades on the real code", "DESIGN.md 4 (C12)"),
  "C13": ("Theorems about the limiter definitions REGENERATED from utilities.fluxLimiter / advection._fsign on every run (published closed form "
          "for every real r, all denominators non-zero, psi(1)=1, 0<=psi<=min(2r,4), clipping, fallback, _fsign never 0), translator sanity at Qc "
          "inside Coq and a search on the real code", "DESIGN.md 4 (C13)"),
